@@ -77,7 +77,7 @@ impl<S: Sut> Model for Space<S> {
     type Action = S::Op;
 
     fn init_states(&self) -> Vec<Self::State> {
-        match self.sut.replay(&[]) {
+        match guarded_replay(&*self.sut, &[]) {
             Ok(key) => vec![St { hist: vec![], key: format!("0|{}", key) }],
             Err(d) => {
                 self.found.lock().unwrap().insert(d.signature.clone(), (d, vec![]));
@@ -96,7 +96,7 @@ impl<S: Sut> Model for Space<S> {
         let mut hist = last.hist.clone();
         hist.push(action);
         self.transitions.fetch_add(1, std::sync::atomic::Ordering::Relaxed);
-        match self.sut.replay(&hist) {
+        match guarded_replay(&*self.sut, &hist) {
             Ok(key) => {
                 let key = if !self.sut.merge_states() {
                     format!("{:?}", hist)
@@ -127,6 +127,14 @@ impl<S: Sut> Model for Space<S> {
     fn properties(&self) -> Vec<Property<Self>> {
         // never discovered: keeps the checker running until the space is exhausted
         vec![Property::sometimes("unreachable", |_, _| false)]
+    }
+}
+
+/// `Sut::replay` with a panic turned into a disagreement.
+pub fn guarded_replay<S: Sut>(sut: &S, hist: &[S::Op]) -> Result<String, Disagreement> {
+    match crate::catch(|| sut.replay(hist)) {
+        Ok(r) => r,
+        Err(p) => Err(Disagreement { signature: "panic-during-replay".into(), what: format!("replay panicked: {}", p), transcript: hist.iter().map(|o| format!("{:?}", o)).collect() }),
     }
 }
 
